@@ -924,6 +924,19 @@ func (e *CEnv) call(ex *CExpr) Value {
 	case "dec2":
 		need(1)
 		return App("dec2", SBytes, intArg(0))
+	case "decw":
+		// decw(w, n): n printed with %0wd
+		need(2)
+		w := intArg(0)
+		if w.Op == "int" && w.Num.IsInt64() {
+			switch w.Num.Int64() {
+			case 2:
+				return App("dec2", SBytes, intArg(1))
+			case 10:
+				return App("dec10", SBytes, intArg(1))
+			}
+		}
+		return App("decw", SBytes, w, intArg(1))
 	case "tfmt12":
 		need(1)
 		return App("tfmt12", SBytes, intArg(0))
@@ -1111,6 +1124,14 @@ func (e *CEnv) call(ex *CExpr) Value {
 			return IntLit(0)
 		}
 		return dynInt(iv.Sym)
+	}
+	if strings.HasPrefix(name, "scanok_") {
+		need(1)
+		return App(name, SBool, bytesArg(0))
+	}
+	if strings.HasPrefix(name, "scan_") {
+		need(2)
+		return App(name, SInt, bytesArg(0), intArg(1))
 	}
 	// uninterpreted spec functions declared in a contract file
 	if u, ok := e.x.W.Uninterp[name]; ok {
